@@ -21,10 +21,10 @@ func init() {
 
 // reviewed exceptions: key -> reason. Keyed by function + ranged expression, never by line.
 var mapRangeReviewed = map[string]string{
-	"codegen/wasm.(*Generator).collectImports | range g.funcs": "ensureImport writes g.imports[name] (a set keyed by the constant import name); the only order-dependent effect is which 'conflicting signatures' internal error is returned first, and every request for one name uses one constant signature",
+	"codegen/wasm.(*Generator).collectImports | range g.funcs":            "ensureImport writes g.imports[name] (a set keyed by the constant import name); the only order-dependent effect is which 'conflicting signatures' internal error is returned first, and every request for one name uses one constant signature",
 	"hir/analysis.(*borrowChecker).releaseExpiredRefs | range scope.refs": "collects the expired reference symbols, then releases each by key (releaseBinding deletes b.bindings[sym] and drops that loan); releases of distinct symbols are independent and emit no diagnostic",
-	"hir/analysis.(*borrowChecker).popScope | range scope.refs": "releases every loan of the closing scope by key; no diagnostic, independent entries",
-	"colors.ConvertANSIToHTML | range ansiToHTMLColors": "sequential strings.ReplaceAll over a constant table; order-independent under the side condition checked by C14.R2b (no key is a substring of another key or of a replacement)",
+	"hir/analysis.(*borrowChecker).popScope | range scope.refs":           "releases every loan of the closing scope by key; no diagnostic, independent entries",
+	"colors.ConvertANSIToHTML | range ansiToHTMLColors":                   "sequential strings.ReplaceAll over a constant table; order-independent under the side condition checked by C14.R2b (no key is a substring of another key or of a replacement)",
 }
 
 func c14R2(c *Ctx, r *Report) {
@@ -267,8 +267,12 @@ func c14R3(c *Ctx, r *Report) {
 	ainfo := add.Info()
 	ag := c.CFG(add)
 	ahits := mustFlow(ag, FlowSpec{
-		Gate: func(n ast.Node) bool { return shallowHas(n, func(x ast.Node) bool { return isMutexCall(ainfo, x, mu, "Lock") }) },
-		Kill: func(n ast.Node) bool { return shallowHas(n, func(x ast.Node) bool { return isMutexCall(ainfo, x, mu, "Unlock") }) },
+		Gate: func(n ast.Node) bool {
+			return shallowHas(n, func(x ast.Node) bool { return isMutexCall(ainfo, x, mu, "Lock") })
+		},
+		Kill: func(n ast.Node) bool {
+			return shallowHas(n, func(x ast.Node) bool { return isMutexCall(ainfo, x, mu, "Unlock") })
+		},
 		Target: func(n ast.Node) bool {
 			as, ok := n.(*ast.AssignStmt)
 			if !ok {
@@ -304,7 +308,9 @@ func c14R3(c *Ctx, r *Report) {
 		}
 		fg := c.CFG(fn)
 		h := mustFlow(fg, FlowSpec{
-			Gate: func(n ast.Node) bool { return shallowHas(n, func(x ast.Node) bool { return isMutexCall(finfo, x, mu, "Lock") }) },
+			Gate: func(n ast.Node) bool {
+				return shallowHas(n, func(x ast.Node) bool { return isMutexCall(finfo, x, mu, "Lock") })
+			},
 			Target: func(n ast.Node) bool {
 				as, ok := n.(*ast.AssignStmt)
 				if !ok {
